@@ -101,6 +101,16 @@ def run_property(prop: str, tier: str, seed: int, budget: int, with_lean=True) -
         run.rule = props.WORK[prop](run, rng, budget)
     if with_lean:
         run.run_correspondence()
+        if prop == "C10":
+            # For C10 the Lean reader IS the reference the property names ("an independent reference reader
+            # written from the EBNF"): a string on which the real parser and the reference differ in
+            # accept/reject, exception type or graph is a failing input of the property itself.
+            for d in run.corr_disagreements:
+                meta = d.get("meta") or {}
+                if "string" in meta:
+                    run.fail("parser-differs-from-reference-reader",
+                             f"{meta['string'][:80]!r}: real {d['real'][:60]!r} vs reference {d['model'][:60]!r}",
+                             {"string": meta["string"], "real": d["real"][:500], "reference": d["model"][:500]})
     return run
 
 
